@@ -2,23 +2,30 @@
 // K-modelmul: ModelParameter::mul on its own, with weights other than 1 (C10 / C11: the interpolated voicing weight).
 // A module of its own, without holes, so that it still compiles when the text of `mul` is restructured and the
 // Verus unit interp (and with it the hole of K-model) loses its anchors.
-//@harness name=mul_scales_every_component tier=quick label=bounded(vector=1,weights=(.5,2,.25)) props=C10,C11 timeout=600
+//@harness name=mul_scales_mean_and_variance tier=quick label=bounded(vector=1,weights=(.5,2,.25)) props=C10 timeout=600
+//@harness name=mul_scales_voicing_weight tier=quick label=bounded(vector=1,weights=(.5,2,.25)) props=C10,C11 timeout=600
 use super::*;
 
-fn mul_scales(w: f64) {
+fn mul_scales(w: f64, voicing: bool) {
     let (m0, v0, s0): (f64, f64, f64) = kani::any();
     kani::assume(!m0.is_nan() && !v0.is_nan() && !s0.is_nan());
     let p0 = ModelParameter { parameters: vec![MeanVari(m0, v0)], msd: Some(s0) };
     let r = p0.mul(w);
-    assert!(r.parameters.len() == 1);
-    assert!(r.parameters[0].0.to_bits() == (m0 * w).to_bits());
-    assert!(r.parameters[0].1.to_bits() == (v0 * w).to_bits());
-    assert!(r.msd.unwrap().to_bits() == (w * s0).to_bits());      // the voicing weight is scaled like the rest (C11)
+    if voicing {
+        assert!(r.msd.unwrap().to_bits() == (w * s0).to_bits());      // the voicing weight is scaled like the rest (C11)
+    } else {
+        assert!(r.parameters.len() == 1);
+        assert!(r.parameters[0].0.to_bits() == (m0 * w).to_bits());
+        assert!(r.parameters[0].1.to_bits() == (v0 * w).to_bits());
+    }
 }
-/// mul alone (the first step of VoiceSet::weighted) with weights other than 1: mean, variance AND the voicing
-/// weight of the first voice are scaled by its interpolation weight (constants: a symbolic weight is a symbolic
-/// multiplicand)
+/// mul alone (the first step of VoiceSet::weighted) with weights other than 1: mean and variance of the first voice
+/// are scaled by its interpolation weight (constants: a symbolic weight is a symbolic multiplicand)
 #[kani::proof]
 #[kani::unwind(3)]
-fn mul_scales_every_component() { mul_scales(0.5); mul_scales(2.0); mul_scales(0.25); kani::cover!(true); }
-
+fn mul_scales_mean_and_variance() { mul_scales(0.5, false); mul_scales(2.0, false); mul_scales(0.25, false); kani::cover!(true); }
+/// ... and so is its voicing weight (asserted apart, so that a change to the mean / variance arithmetic is reported
+/// under C10 only and not under C11)
+#[kani::proof]
+#[kani::unwind(3)]
+fn mul_scales_voicing_weight() { mul_scales(0.5, true); mul_scales(2.0, true); mul_scales(0.25, true); kani::cover!(true); }
